@@ -745,6 +745,21 @@ def check(index, ctx):
             continue
         for a, ss in stores(reset_node if mname == "reset" else f.node).items():
             state.setdefault(a, []).extend((mname, s) for s, _ in ss)
+        if mname != "reset":
+            # ... or changed in place: an iterator advanced with next(), a container grown / emptied, an element stored
+            MUT = {"append", "appendleft", "extend", "pop", "popleft", "clear", "add", "update", "remove", "discard", "insert", "send", "__next__", "sort", "reverse", "setdefault", "popitem"}
+            for x in ast.walk(f.node):
+                a_ = None
+                if isinstance(x, ast.Call) and isinstance(x.func, ast.Name) and x.func.id == "next" and x.args:
+                    a_ = self_attr(x.args[0])
+                elif isinstance(x, ast.Call) and isinstance(x.func, ast.Attribute) and x.func.attr in MUT:
+                    a_ = self_attr(x.func.value)
+                elif isinstance(x, (ast.Assign, ast.AugAssign)):
+                    for t_ in (x.targets if isinstance(x, ast.Assign) else [x.target]):
+                        if isinstance(t_, ast.Subscript) and self_attr(t_.value):
+                            a_ = self_attr(t_.value)
+                if a_:
+                    state.setdefault(a_, []).append((mname, x))
     mutable = {a for a, ws in state.items() if any(m != "reset" for m, _ in ws)}
     reset_st = stores(reset_node)
     rcfg = cfg_of(reset_node)
